@@ -37,8 +37,10 @@ Dyn(t)      == Mem("dyn",    t, 0, 0)   \* T x<>;      u32 counter + elements
 Lim(t, n)   == Mem("lim",    t, n, 0)   \* T x<n>;     u32 counter + n slots
 Greedy(t)   == Mem("greedy", t, 0, 0)   \* T x<...>;   elements to the end
 Ext(t, c)   == Mem("ext",    t, 0, c)   \* T x<@c>;    sized by member c
+LimX(t, n, c) == Mem("limx", t, n, c)   \* n slots, counted by member c (isar / patch "limited";
+                                        \* prophy text can only write it with an adjacent u32 counter: T x<n>)
 
-ArrayForms == {"fixed", "dyn", "lim", "greedy", "ext"}
+ArrayForms == {"fixed", "dyn", "lim", "greedy", "ext", "limx"}
 
 (* ---- type definitions ------------------------------------------------- *)
 Arm(d, t) == [d |-> d, t |-> t]
@@ -86,7 +88,7 @@ RuleUnlimitedLast(kinds, ms) ==
 \* "Dynamic struct may not be held in fixed or limited array."
 RuleNoDynInSizedArray(kinds, ms) ==
     \A j \in 1..Len(ms) :
-        ms[j].f \in {"fixed", "lim"} => RefKind(kinds, ms[j].t) = FIXED
+        ms[j].f \in {"fixed", "lim", "limx"} => RefKind(kinds, ms[j].t) = FIXED
 
 \* "Unlimited (greedy) struct may not be held in any array."
 RuleNoUnlimitedInArray(kinds, ms) ==
@@ -99,13 +101,13 @@ RuleNoDynInOptional(kinds, ms) ==
 
 \* sizer: a non-optional integer member placed before the array it sizes
 RuleSizer(env, ms) ==
-    \A j \in 1..Len(ms) : ms[j].f = "ext" =>
+    \A j \in 1..Len(ms) : ms[j].f \in {"ext", "limx"} =>
         /\ ms[j].c \in 1..(j - 1)
         /\ ms[ms[j].c].f = "plain"
         /\ IsIntRef(env, ms[ms[j].c].t)
 
 RulePositiveSize(ms) ==
-    \A j \in 1..Len(ms) : ms[j].f \in {"fixed", "lim"} => ms[j].n >= 1
+    \A j \in 1..Len(ms) : ms[j].f \in {"fixed", "lim", "limx"} => ms[j].n >= 1
 
 \* bytes exist only as arrays; there is no optional array / optional bytes
 RuleByteOnlyInArray(ms) ==
